@@ -130,6 +130,29 @@ pub fn serialize_witness(rln_witness: &RLNWitnessInput) -> Result<Vec<u8>> {
 pub fn deserialize_witness(serialized: &[u8]) -> Result<(RLNWitnessInput, usize)> {
     let mut all_read: usize = 0;
 
+    // Check every length against the buffer before slicing it:
+    // identity_secret<32> | user_message_limit<32> | message_id<32> | len<8> | path_elements<32*len> | len<8> | identity_path_index<len> | x<32> | external_nullifier<32>
+    let el_size = fr_byte_size();
+    let too_short = || Report::msg("serialized witness is too short");
+    let read_len = |at: usize| -> Result<usize> {
+        let bytes = serialized.get(at..at + 8).ok_or_else(too_short)?;
+        Ok(usize::try_from(u64::from_le_bytes(bytes.try_into()?))?)
+    };
+    let path_len = read_len(3 * el_size)?;
+    let index_at = path_len
+        .checked_mul(el_size)
+        .and_then(|n| n.checked_add(3 * el_size + 8))
+        .ok_or_else(too_short)?;
+    let index_len = read_len(index_at)?;
+    let expected_len = index_at
+        .checked_add(8)
+        .and_then(|n| n.checked_add(index_len))
+        .and_then(|n| n.checked_add(2 * el_size))
+        .ok_or_else(too_short)?;
+    if serialized.len() < expected_len {
+        return Err(too_short());
+    }
+
     let (identity_secret, read) = bytes_le_to_fr(&serialized[all_read..]);
     all_read += read;
 
@@ -623,6 +646,16 @@ pub fn inputs_for_witness_calculation(
 ) -> Result<[(&str, Vec<Fr>); 7]> {
     message_id_range_check(&rln_witness.message_id, &rln_witness.user_message_limit)?;
 
+    // The circuit constrains every direction value to be 0 or 1 and takes one per path element
+    if rln_witness.path_elements.len() != rln_witness.identity_path_index.len() {
+        return Err(Report::msg(
+            "path_elements and identity_path_index have different lengths",
+        ));
+    }
+    if rln_witness.identity_path_index.iter().any(|v| *v > 1) {
+        return Err(Report::msg("identity_path_index values must be 0 or 1"));
+    }
+
     let mut identity_path_index = Vec::with_capacity(rln_witness.identity_path_index.len());
     rln_witness
         .identity_path_index
@@ -657,7 +690,8 @@ pub fn generate_proof(
     // If in debug mode, we measure and later print time take to compute witness
     #[cfg(test)]
     let now = Instant::now();
-    let full_assignment = calculate_rln_witness(inputs, graph_data);
+    let full_assignment =
+        calculate_rln_witness(inputs, graph_data).map_err(ProofError::WitnessError)?;
 
     #[cfg(test)]
     println!("witness generation took: {:.2?}", now.elapsed());
